@@ -43,8 +43,8 @@ def run(chk, model: SegmentModel = None):
     rep = m.loop_reports[0] if m.loop_reports else {}
 
     if m.error is None:
-        _bytes_ai_part(chk, m, S, rep)
-    _structural_part(chk, m)
+        chk.guard(_bytes_ai_part, chk, m, S, rep)
+    chk.guard(_structural_part, chk, m)
 
 
 def _bytes_ai_part(chk, m, S, rep):
